@@ -545,7 +545,9 @@ pub fn run_case(servers: &mut Servers, f: &[&str]) -> String {
             if gave_up {
                 reqs.push(slot.lock().unwrap().clone().unwrap_or("[HANDLER-BLOCKED]".to_string()));
                 blocked_handlers.push(hth);
-                end = if eof { "hang" } else { "open" };
+                // what the CLIENT has seen decides: a handler may still be blocked (discarding a body the client
+                // withholds) although the answer and the end of the stream have reached the client
+                end = if eof_seen.load(Ordering::SeqCst) { "closed" } else if eof { "hang" } else { "open" };
                 break;
             }
             let _ = hth.join();
